@@ -21,7 +21,9 @@ Init == i \in 1..K
 Next == i + K <= Len(Trace) /\ i' = i + K
 Spec == Init /\ [][Next]_vars
 
-Bad(name) == PrintT(<<"BAD", name, i>>) /\ FALSE
+\* A failing record is named on stdout; the invariants themselves stay TRUE (the BAD
+\* lines are the verdict), so one run names every offending record.
+Bad(name) == PrintT(<<"BAD", name, i>>)
 In == i <= Len(Trace)
 T == Trace[i]
 
